@@ -184,10 +184,12 @@ func (session *clientSession) sendChunk(chunk base.LogChunk) (bool, reconnectPol
 		return false, reconnectWithDelay
 	}
 
+	// the chunk has been completely transmitted: it counts as forwarded whether or not it can still be queued for its ACK
+	session.metrics.OnForwarded(chunk)
+
 	// pass forwarded chunk to acknowledger
 	select {
 	case session.ackerChan <- chunk:
-		session.metrics.OnForwarded(chunk)
 		return true, ""
 
 	case <-session.inputClosed.Channel():
